@@ -5,7 +5,7 @@
   ALSO on failure, so "how much was consumed / allocated before it gave up" is a value of the model.
 
   models: message.ensureData, message.GetChar, message.GetInt, message.GetInt32, message.GetString,
-          message.GetStringWithMaxSize, message.GetBytes, message.SkipString, message.discard,
+          message.GetStringWithMaxSize, message.GetBytes, message.SkipString, message.skipStringIs, message.skipSecretString, message.discard,
           message.getSecretString, message.getSecretStringWithMaxSize, message.GetClassAdRaw,
           message.GetClassAdRawBody, message.SkipClassAdRaw, message.getClassAdFromMessage,
           message.getClassAdFromMessageWithMaxSize, message.isTypeName,
@@ -17,7 +17,7 @@
   What the meters count (each is observable on the implementation or bounded by a measurement):
     frames  ReadFrame calls that delivered a frame                    (= frames taken from the wire)
     calls   string-level operations started (GetString, GetStringWithMaxSize with a positive cap,
-            SkipString): each asks the stream `IsEncrypted()` exactly once, which is how the
+            SkipString, skipStringIs): each asks the stream `IsEncrypted()` exactly once, which is how the
             correspondence check counts loop iterations on the real code
     alloc   bytes allocated: appends to the frame buffer, `make([]byte, n)`, growth of a result
             slice, the text builder of the raw ClassAd reader
@@ -297,15 +297,64 @@ def getClassAdRaw (s : St) : Res Bytes :=
   | (.error e, s1) => (.error e, s1)
   | (.ok n, s1) => rawBody n s1
 
+/-- the byte loop of plaintext `skipStringIs`: `matched` = every byte so far equalled the wanted
+    one, `rest` = the part of `want` not yet matched (Go's `want[idx:]`) -/
+def skipIsC : Nat → St → Bool → Bytes → Res Bool
+  | 0, s, _, _ => (.error .state, s)                  -- not reached
+  | fuel + 1, s, matched, rest =>
+    match ensure 1 s with
+    | (.error .eom, s1) => (.ok (matched && rest.isEmpty), s1)
+    | (.error e, s1) => (.error e, s1)
+    | (.ok (), s1) =>
+      match s1.d.buf with
+      | [] => (.error .eom, s1)
+      | c :: tl =>
+        if c = 0 then (.ok (matched && rest.isEmpty), s1.setBuf tl)
+        else
+          match matched, rest with
+          | true, b :: r => if c = b then skipIsC fuel (s1.setBuf tl) true r else skipIsC fuel (s1.setBuf tl) false (b :: r)
+          | _, _ => skipIsC fuel (s1.setBuf tl) false rest
+
+/-- `skipStringIs(want)` (`want` non-empty): `SkipString` that also tells whether the string it
+    dropped is `want`. Only an encrypted-mode string whose announced length is `|want|` or
+    `|want| + 1` is looked at (`GetBytes` of that many bytes); everything else is discarded. -/
+def skipStringIs (want : Bytes) (s0 : St) : Res Bool :=
+  let s := s0.call
+  if s.enc then
+    match getInt32 s with
+    | (.error e, s1) => (.error e, s1)
+    | (.ok len, s1) =>
+      if len = (want.length : Int) ∨ len = (want.length : Int) + 1 then
+        match getBytes len s1 with
+        | (.error e, s2) => (.error e, s2)
+        | (.ok data, s2) => (.ok (decide (decodeEncStr data = want)), s2)
+      else
+        match discard (s1.nsrc + 2) len.toNat s1 with
+        | (.error e, s2) => (.error e, s2)
+        | (.ok (), s2) => (.ok false, s2)
+  else skipIsC (s.bytes + 1) s true want
+
+/-- `skipSecretString`: `SkipString` under the crypto-for-secret bracket -/
+def skipSecret (s : St) : Res Unit :=
+  let before := s.enc
+  match skipString { s with enc := s.enc || s.key } with
+  | (r, s2) => (r, { s2 with enc := before })
+
+/-- the expression loop of `SkipClassAdRaw` (fix 4; follows the secret marker) -/
 def skipLoop : Nat → St → Res Unit
   | 0, s => (.ok (), s)
   | n + 1, s =>
     match ensure 1 s with
     | (.error e, s1) => (.error e, s1)
     | (.ok (), s1) =>
-      match skipString s1 with
+      match skipStringIs secretMarker s1 with
       | (.error e, s2) => (.error e, s2)
-      | (.ok (), s2) => skipLoop n s2
+      | (.ok isMarker, s2) =>
+        if isMarker then
+          match skipSecret s2 with
+          | (.error e, s3) => (.error e, s3)
+          | (.ok (), s3) => skipLoop n s3
+        else skipLoop n s2
 
 /-- `SkipClassAdRaw` (fix 4) -/
 def skipClassAdRaw (s : St) : Res Unit :=
